@@ -324,7 +324,7 @@ fn main() {
 		let (st, viols) = xplore::explore(&scns, &cfg, &wd);
 		if !st.det_mismatch.is_empty() {
 			wd.cleanup();
-			cli::die(&format!("NONDETERMINISM: replaying a schedule gave a different history: {}", st.det_mismatch.join(" || ")));
+			cli::die(&format!("NONDETERMINISM or harness failure: {}", st.det_mismatch.join(" || ")));
 		}
 		for v in &viols {
 			let scn = &scns[v.scn];
@@ -342,6 +342,15 @@ fn main() {
 				),
 				replay: json!({"part": "conc", "scenario": scn.to_json(), "schedule": xplore::schedule_json(&v.schedule), "policy": policy_json(&pol)}),
 			});
+		}
+		if !viols.is_empty() {
+			let mut by: std::collections::BTreeMap<String, (u64, u8)> = std::collections::BTreeMap::new();
+			for v in &viols {
+				let e = by.entry(v.oracle.clone()).or_insert((0, u8::MAX));
+				e.0 += 1;
+				e.1 = e.1.min(v.deviations);
+			}
+			eprintln!("[conc] violating scenarios by oracle (count, fewest deviations): {:?}", by);
 		}
 		executions = st.executions;
 		states = st.new_decisions + st.scenarios;
@@ -376,6 +385,7 @@ fn main() {
 			json!({
 				"scenarios": st.scenarios, "families": fam,
 				"schedules": st.executions, "schedules_per_deviation_level": st.executions_per_level,
+				"reexpansions_not_counted_as_schedules": st.reexpansions,
 				"deviation_bound_requested": st.bound_requested, "deviation_bound_completed": st.bound_completed,
 				"deviation_rule": "a schedule's deviations = preemptions (switching away from a thread that could continue) + injected step failures (at most max_faults); all schedules with at most `deviation_bound_completed` deviations were executed, each to quiescence",
 				"max_faults_per_schedule": cfg.max_faults,
